@@ -1,6 +1,6 @@
 /-
   C07 — derived indexes and query views agree with the chain.
-  Proved here (non-arbitrating configuration, all histories): the unspent-set checksum is exactly the
+  Proved here (both configurations, all histories): the unspent-set checksum is exactly the
   xor of the snapshot hashes of the unspent outputs; the address-index height and the history's parsed
   sequence always equal the head sequence (so the start-up rebuilds are no-ops); pool operations never
   touch any derived structure.  The per-address index, the history buckets, balances and block queries
@@ -50,10 +50,10 @@ theorem headSeq_append (l : List Block) (b : Block) (s : State) (h : s.chain = l
 
 /-- after EVERY history: the stored checksum equals the xor over the current unspent set (the value
 block headers must carry), and both rebuild markers equal the head sequence -/
-theorem derived_after_run {G : Nat} {g : Block} {cfg : Cfg} (harb : cfg.arb = false) (s0 : State)
+theorem derived_after_run {G : Nat} {g : Block} {cfg : Cfg} (s0 : State)
     (ops : List Op) (h0 : Good G g cfg s0) (hd : Derived s0)
-    (hwf : ∀ op ∈ ops, ∀ t ∈ op.txns, WfSound t) : Derived (run s0 ops) := by
-  have := run_induction (fun st => Good G g cfg st ∧ Derived st) ops (fun op => ∀ t ∈ op.txns, WfSound t)
+    (hwf : ∀ op ∈ ops, OpOK op) : Derived (run s0 ops) := by
+  have := run_induction (fun st => Good G g cfg st ∧ Derived st) ops OpOK
     (by
       intro s s' hs ⟨hg, hdv⟩
       have hs' := hs
@@ -68,15 +68,14 @@ theorem derived_after_run {G : Nat} {g : Block} {cfg : Cfg} (harb : cfg.arb = fa
       intro s s' b ⟨hg, hdv⟩ hq he
       obtain ⟨h1, h2, h3⟩ := hg
       obtain ⟨c1, c2⟩ := exec_chain he
-      have harb' : s.cfg.arb = false := by rw [h2]; exact harb
-      refine ⟨⟨?_, by rw [c2]; exact h2, exec_preserves_inv harb' h1 h3 hq he⟩, ?_⟩
+      refine ⟨⟨?_, by rw [c2]; exact h2, exec_preserves_inv hq.2 h1 h3 hq.1 he⟩, ?_⟩
       · rw [c1]
         cases hc : s.chain with
         | nil => rw [hc] at h1; cases h1
         | cons a l => rw [hc] at h1; simpa using h1
       · obtain ⟨m1, m2⟩ := exec_markers he
         have hs := headSeq_append _ _ s' c1
-        exact ⟨exec_preserves_xor harb' h1 h3 hdv.1 hq he, by rw [m1, hs], by rw [m2, hs]⟩)
+        exact ⟨exec_preserves_xor hq.2 h1 h3 hdv.1 hq.1 he, by rw [m1, hs], by rw [m2, hs]⟩)
     s0 ⟨h0, hd⟩ hwf
   exact this.2
 
